@@ -30,11 +30,11 @@ DRIVER = "server"
 ML_EXTRA = ("vmsg.ml",)
 COQ_TARGETS = ["Properties/C09.vo"]
 THEOREMS = [
-    "C09_reply_or_silence", "C09_reply_echo", "C09_formerr_on_garbage", "C09_notimp_on_opcode",
+    "C09_reply_or_silence", "C09_udp_served_or_silence", "C09_tcp_served", "C09_fallback_encodes", "C09_reply_echo", "C09_formerr_on_garbage", "C09_notimp_on_opcode",
     "C09_refused_rules", "C09_ra_iff_recursion", "C09_sections_are_resolver_output",
     "C09_udp_512_tc_exact", "C09_tcp_prefix_exact", "C09_framing_never_panics",
     "C09_tcp_short_read", "C09_answers_on_chain_unless_referral", "C09_known_referral_witness",
-    "C09_unserialisable_reply_witness",
+    "C09_unserialisable_reply_servfail_witness",
 ]
 RULE = ("pure cases (harness): framing of byte strings of 0..70000 octets around the 12 / 512 / 65535 boundaries with every value "
         "of octet 2, TCP streams with every relation of announced and delivered length, decode + make_response; non-trivial = "
@@ -45,8 +45,10 @@ ASSUMPTIONS = [
     "instances are resolve_local (LocalModel) and, for recursive mode, resolve_recursive_dead: recursive.rs under the assumption "
     "that every upstream exchange fails and no time-out fires (checked against the real binary with an unreachable upstream port)",
     "forwarding mode and recursive mode with answering upstreams are not exercised against the real binary here (C07/C08 cover the resolver)",
-    "a reply that cannot be serialised (RDATA or a section count above 65535, only reachable through configuration) is NOT sent at all "
-    "by the code; the model says the same and the reply theorems are about handle_raw_message / carry the premise encode = Ok",
+    "a reply that cannot be serialised (RDATA or a section count above 65535, only reachable through configuration) is replaced by "
+    "its SERVFAIL stand-in (same id / QR / opcode / RD / RA / questions, no records; /repo commit 35946be): the model says the same, "
+    "C09_udp_served_or_silence / C09_tcp_served carry no premise about encode, and the stand-in is proved to serialise for every reply "
+    "handle_raw_message builds (C09_fallback_encodes)",
     "read_tcp_bytes never reads past the announced length (BytesMut::with_capacity(expected) allocates exactly `expected`); D8",
     "the 512 / 12 / 0b10 / 0b11111101 / u16::MAX literals of util/net.rs are written into ServerModel.v by hand (checked by the UDPF/TCPF stream)",
     "zone files are produced from the zone operations by a trusted python renderer (one record per line, absolute names, explicit TTL and class)",
@@ -63,8 +65,21 @@ TRUSTED = ["independent reference decoder vlib/wireref.py (oracle only)",
            "python zone-file / hosts-file renderer and socket client in vlib/p_c09.py"]
 
 KNOWN_REFERRAL = "referral-in-answer-with-aa"
+# fixed finding (35946be): kept as an ordinary failure class -- it must never fire again (regression detector)
 KNOWN_UNSERIALISABLE = "unserialisable-reply-silence"
 UNSER_NAME = "unser.example.com."          # holds a TXT record of 70000 octets: its reply cannot be serialised
+UNSER_PREFIX = "unserialisable:"           # model driver: a reply was built, to_octets fails, its SERVFAIL stand-in follows
+
+
+def model_reply(model_out):
+    """the model's `Q` result without the unserialisable label: "none" | hex | Panic ..."""
+    if isinstance(model_out, str) and model_out.startswith(UNSER_PREFIX):
+        return model_out[len(UNSER_PREFIX):]
+    return model_out
+
+
+def model_silent(model_out):
+    return model_reply(model_out) in (None, "none")
 
 QUICK_PURE = 1500
 THOROUGH_PURE = 30000
@@ -422,7 +437,7 @@ def make_config(rng, mode, idx, with_huge):
     # an answer of more than 512 octets (TC over UDP, whole over TCP)
     for i in range(8):
         ex.append((False, "big.example.com.", TXT, 300, ("o", bytes([97 + i]) * 90)))
-    # known finding: RDATA longer than 65535 octets makes to_octets fail; the reply is dropped
+    # fixed finding (35946be): RDATA longer than 65535 octets makes to_octets fail; SERVFAIL is sent in place of the reply
     ex.append((False, UNSER_NAME, TXT, 300, ("o", b"u" * 70000)))
     if with_huge:
         # an answer of more than 65535 octets (TC and cut over TCP as well)
@@ -547,7 +562,8 @@ def gen_messages(rng, cfg, budget, big_ok):
         b = simple_query(REFERRAL_WITNESS[0], REFERRAL_WITNESS[1], rd=rd)
         out.append(Msg("U", b, "witness-referral"))
         out.append(Msg("Te", tcp_stream(b), "witness-referral"))
-    # ... and the known finding "a reply that cannot be serialised is dropped": one UDP and one TCP probe
+    # ... and the fixed finding "a reply that cannot be serialised is dropped": one UDP and one TCP probe, each of
+    # which must get exactly one SERVFAIL reply with its id (35946be)
     b = simple_query(UNSER_NAME, tok.TXT, rd=0)
     out.append(Msg("U", b, "witness-unserialisable"))
     out.append(Msg("Te", tcp_stream(b), "witness-unserialisable"))
@@ -803,7 +819,7 @@ def tcp_exchange(addr, m, quiet_wait=0.25, timeout=20.0):
         if m.transport == "To":
             # the peer stays connected and silent: whatever the server sends within the wait (a complete
             # message is answered and the connection closed; an incomplete one must get nothing)
-            wait = quiet_wait if m.expected in (None, "none", "unserialisable") else timeout
+            wait = quiet_wait if model_silent(m.expected) else timeout
             s.settimeout(wait)
             out = bytearray()
             while True:
@@ -864,7 +880,7 @@ def udp_batch(addr, socks, batch, sentinel_payload, next_id, deadline=20.0, quie
     stray = []
     t_end = time.time() + deadline
     last = time.time()
-    awaited = {i for i, m in enumerate(batch) if m.expected not in (None, "none", "unserialisable") and len(m.data) >= 2}
+    awaited = {i for i, m in enumerate(batch) if not model_silent(m.expected) and len(m.data) >= 2}
     while True:
         now = time.time()
         if all(x is not None for x in sentinel) and not awaited and now - last >= quiet:
@@ -928,9 +944,12 @@ def is_proper_ancestor(anc, name):
 
 def oracle_reply(cfg, m, replies, model_out=None):
     """replies: list of reply messages (UDP: datagrams; TCP: [payloads] after prefix check done by
-    the caller).  -> None | (class, text).  model_out is consulted for ONE thing only: a missing
-    reply is put into the known class `unserialisable-reply-silence` exactly when the model built a
-    reply message whose encoding fails with CounterTooLarge; any other missing reply is a violation."""
+    the caller).  -> None | (class, text).  model_out is consulted for ONE thing only: whether the
+    model built a reply message whose encoding fails with CounterTooLarge.  For such a message (and,
+    independently of the model, for the deterministic witness probes `unser.example.com TXT`) the
+    expected reply is the SERVFAIL stand-in of commit 35946be: exactly one reply, same id, QR set,
+    opcode / RD / question echoed, AA clear, RCODE 2, no records; a missing reply is a failure of class
+    `unserialisable-reply-silence` (the fixed finding), any other deviation of `unserialisable-fallback-wrong`."""
     req, short = request_view(m)
     if m.transport in ("Tc", "Tr"):
         return None                           # the client did not listen
@@ -945,9 +964,11 @@ def oracle_reply(cfg, m, replies, model_out=None):
             return ("reply-to-response-or-idless", "%d repl%s to a message that is %s" % (
                 len(replies), "y" if len(replies) == 1 else "ies", "flagged as a response" if len(req) >= 2 else "too short to hold an id"))
         return None
-    if not replies and model_out == "unserialisable":
+    unser = (isinstance(model_out, str) and model_out.startswith(UNSER_PREFIX)) or m.tag == "witness-unserialisable"
+    if not replies and unser:
         return (KNOWN_UNSERIALISABLE, "no reply at all to a %s message of %d octets (id %s): the reply cannot be serialised "
-                "(RDATA or a section count above 65535) and is dropped" % ("parseable" if parseable else "unparseable", len(req), req[:2].hex()))
+                "(RDATA or a section count above 65535) and was dropped instead of being answered with SERVFAIL"
+                % ("parseable" if parseable else "unparseable", len(req), req[:2].hex()))
     if len(replies) != 1:
         return ("not-exactly-one-reply", "%d replies to a %s message of %d octets (id %s)" % (
             len(replies), "parseable" if parseable else "unparseable", len(req), req[:2].hex()))
@@ -989,6 +1010,13 @@ def oracle_reply(cfg, m, replies, model_out=None):
     if ra != (1 if cfg["mode"] == "R" else 0):
         return ("ra-wrong", "RA=%d in %s mode" % (ra, "recursive" if cfg["mode"] == "R" else "authoritative-only"))
     qs = ref[1]
+    if unser:
+        an, ns, ar = struct.unpack(">HHH", rep[6:12])
+        if rcode != 2 or aa or tc or an or ns or ar or rst != "ok" or rmsg[1] != qs or len(qs) != 1:
+            return ("unserialisable-fallback-wrong", "the reply standing in for one that cannot be serialised must be SERVFAIL with AA clear, "
+                    "the question echoed and no records: RCODE %d AA %d TC %d counts %d/%d/%d, %s" % (
+                        rcode, aa, int(tc), an, ns, ar, "questions %s" % (rmsg[1],) if rst == "ok" else "undecodable: %s" % (rmsg,)))
+        return None
     must_refuse = len(qs) >= 2 or (len(qs) == 1 and (qs[0][1] not in KNOWN_QTYPES or qs[0][2] not in (1, 255)))
     if must_refuse:
         if rcode != 5:
@@ -1022,9 +1050,10 @@ def compare_with_model(m, model_out, replies):
     """-> None | text"""
     if m.transport in ("Tc", "Tr"):
         return None
+    model_out = model_reply(model_out)          # the SERVFAIL stand-in is compared like any other reply
     if model_out in ("Panic", "OutOfFuel", "Err") or model_out.startswith("MODEL-EXN") or model_out.startswith("DRIVER"):
         return "model: " + core.trunc(model_out, 80)
-    if model_out in ("none", "unserialisable"):
+    if model_out == "none":
         return None if not replies else "model: no reply (%s); implementation sent %d" % (model_out, len(replies))
     exp = unhex(model_out)
     if m.transport != "U":
@@ -1220,8 +1249,10 @@ def run_config(cfg, msgs, run_dir, tag, rng, fails, stats, batch_size=96):
             if f is not None:
                 fails.append(core.Failure(f[0], f[1], case=case_of(m), impl=";".join(hexb(r[:300]) for r in m.got) or "no reply",
                                           model=core.trunc(m.expected, 300)))
-                if f[0] in (KNOWN_REFERRAL, KNOWN_UNSERIALISABLE):
+                if f[0] == KNOWN_REFERRAL:
                     stats["known:" + f[0]] = stats.get("known:" + f[0], 0) + 1
+            elif isinstance(m.expected, str) and m.expected.startswith(UNSER_PREFIX):
+                stats["unserialisable_answered_servfail"] = stats.get("unserialisable_answered_servfail", 0) + 1
             d = compare_with_model(m, m.expected, m.got)
             if d is not None:
                 stats["disagreements"] = stats.get("disagreements", 0) + 1
